@@ -1,7 +1,7 @@
 PROP = dict(
     coq=["Html/HtmlHarness.vo", "Html/Lit.vo"],
     legs=[
-        dict(driver="html", binary="zhtml", quick=1200, thorough=16000, shard=100,
+        dict(driver="html", binary="zhtml", quick=500, thorough=12000, shard=50,
              monitors=["standard_attrs_extracted (every planted asset URL outside the named exclusions, tag enabled, is among HTMLAssets' strings)",
                        "anchors_become_outlinks (every planted <a href>, resolved, is among HTMLOutlinks' URLs and, hop limit allowing, among the items postprocessItem returns)",
                        "requested_unless_excused (children / outlink items normalise to the RFC 3986 resolution of every planted simple reference)",
